@@ -146,11 +146,37 @@ func (w *World) StreamSession(name string, maxMsgs int64, ackFrac, nackFrac floa
 	}
 	sortStrings(acks)
 	sortStrings(nacks)
-	if len(acks)+len(nacks) > 0 {
+	// deadline extensions ride in the same request as the nacks: every ack id has
+	// its own modify_deadline_seconds
+	extends := map[string]int32{}
+	var extIDs []string
+	if w.StreamExtends {
+		chosen := map[string]bool{}
+		for _, id := range acks {
+			chosen[id] = true
+		}
+		for _, id := range nacks {
+			chosen[id] = true
+		}
+		for _, id := range pids {
+			if !chosen[id] && w.R.Intn(3) == 0 {
+				extends[id] = []int32{5, 30, 30}[w.R.Intn(3)]
+				extIDs = append(extIDs, id)
+			}
+		}
+	}
+	if len(acks)+len(nacks)+len(extIDs) > 0 {
 		req := &pubsubpb.StreamingPullRequest{AckIds: acks}
 		for _, id := range nacks {
 			req.ModifyDeadlineAckIds = append(req.ModifyDeadlineAckIds, id)
 			req.ModifyDeadlineSeconds = append(req.ModifyDeadlineSeconds, 0)
+		}
+		for _, id := range extIDs {
+			req.ModifyDeadlineAckIds = append(req.ModifyDeadlineAckIds, id)
+			req.ModifyDeadlineSeconds = append(req.ModifyDeadlineSeconds, extends[id])
+		}
+		if len(nacks) > 0 && len(extIDs) > 0 {
+			w.stat("stream_requests_mixing_nack_and_extension", 1)
 		}
 		alo := w.now()
 		fs.Push(req)
@@ -178,6 +204,13 @@ func (w *World) StreamSession(name string, maxMsgs int64, ackFrac, nackFrac floa
 			}
 			// a nack releases the slot; the message may be sent again in this session
 			delete(pending, id)
+		}
+		for _, id := range extIDs {
+			if d := w.ByAck[id]; d != nil && d.State == Out {
+				dd := time.Duration(extends[id]) * time.Second
+				d.Lease = Iv{maxT(d.Lease.Lo, alo.Add(dd)), maxT(d.Lease.Hi, ahi.Add(dd))}
+				w.stat("stream_extensions", 1)
+			}
 		}
 		if len(nacks) > 0 {
 			idleCheck = false
